@@ -18,7 +18,8 @@ def gen(rng, big_pct=6):
     req = []
     for _ in range(nreq):
         ab = rng.choice(pool)
-        req.append([ab, rng.sample(TSYNTAX, rng.randrange(1, 5))])
+        # (an empty transfer syntax list is something the context API accepts)
+        req.append([ab, rng.sample(TSYNTAX, rng.randrange(1, 5)) if rng.randrange(25) else []])
     sup = []
     for ab in rng.sample(ABSTRACTS, rng.randrange(1, len(ABSTRACTS) + 1)):
         roles = rng.choice([(None, None), (None, None), (True, True), (True, False), (False, True), (False, False)])
@@ -40,6 +41,10 @@ def gen(rng, big_pct=6):
         "impl_version": rng.choice([None, "V", "PYNETDICOM_310", "ABCDEFGHIJKLMNOP", ""]),
         "ext": rng.sample(["async", "user_id", "sop_ext", "sop_common"], rng.randrange(0, 3)),
         "seg": rng.choice(["whole", "random", "dribble"]),
+        # how the requested contexts reach associate(): configured on the AE, passed as the `contexts` argument (fresh
+        # objects), the same context object listed twice, or - after a first association - a fresh context plus the
+        # context objects (carrying IDs) that the first association reported as accepted / requested
+        "via": rng.choice(["ae", "ae", "ae", "arg", "arg_dup", "arg_reuse", "arg_reuse_requested"]),
     }
     return sc
 
@@ -114,8 +119,25 @@ def execute(sc, ctx):
             it.related_general_sop_class_identification = ["1.2.840.10008.5.1.4.1.1.88.22"]
             ext.append(it)
         cap["n_requested"] = len(scu.requested_contexts)
+        via = sc.get("via", "ae")
+        kw = {}
         try:
-            assoc = ctx.associate(scu, ae_title=sc["acc_title"], ext_neg=ext)
+            if via != "ae" and scu.requested_contexts:
+                from pynetdicom import build_context
+
+                fresh = [build_context(ab, tss) for ab, tss in sc["req"]][:128]
+                if via == "arg":
+                    kw["contexts"] = fresh
+                elif via == "arg_dup":
+                    kw["contexts"] = (fresh + [fresh[0]])[:128]
+                else:
+                    first = ctx.associate(scu, ae_title=sc["acc_title"], ext_neg=list(ext))
+                    cap["first_established"] = first.is_established
+                    old = list(first.accepted_contexts) if via == "arg_reuse" else list(first.requestor.requested_contexts)
+                    if first.is_established:
+                        first.release()
+                    kw["contexts"] = ([build_context(ABSTRACTS[0], [TSYNTAX[0]])] + old + fresh[:1])[:128]
+            assoc = ctx.associate(scu, ae_title=sc["acc_title"], ext_neg=ext, **kw)
         except Exception as e:  # noqa: BLE001 - request refused by the API (e.g. > 128 contexts)
             cap["associate_refused"] = repr(e)[:120]
             return
@@ -130,9 +152,12 @@ def execute(sc, ctx):
         _config.UNRESTRICTED_STORAGE_SERVICE = old_unres
 
 
-def wire_rq_ac(r):
-    c2s, _ = C.conn_pdus(r, 0, "c2s")
-    s2c, _ = C.conn_pdus(r, 0, "s2c")
+def wire_rq_ac(r, cid=None):
+    """The A-ASSOCIATE-RQ / -AC of a connection (default: the last one - the association under test)."""
+    if cid is None:
+        cid = max([w["conn"] for w in r.wire] or [0])
+    c2s, _ = C.conn_pdus(r, cid, "c2s")
+    s2c, _ = C.conn_pdus(r, cid, "s2c")
     rq = next((p for p in c2s if p["type"] == 1), None)
     ac = next((p for p in s2c if p["type"] == 2), None)
     return rq, ac
